@@ -1,9 +1,13 @@
 import FluteModel.Lemmas.SchedCount
+import FluteModel.Lemmas.SchedTick
 /-
-  C14 - Timing.  Time is `Nat` nanoseconds supplied by the caller with every `read` / `publish`; the one
-  floating point computation (`packet_transmission_tick = duration.div_f64(n)`) is an input of the transfer
-  start (carried by the `Start` event).  Theorems over every configuration, FDT table and operation history
-  with ARBITRARY instants (monotonicity of the clock is not needed for these statements).
+  C14 - Timing.  Time is `Nat` nanoseconds supplied by the caller with every `read` / `publish`.  The pacing tick
+  (`packet_transmission_tick`; since /repo 9d73d78 the exact integer quotient `target / n`) is looked up by `Sched.read`
+  in a table it is given and carried by the `Start` event: the theorems up to `pacing_lower_bound_floor` hold for EVERY
+  table; `start_tick_is_tickOf` / `pacing_lower_bound_model` are about the histories the driver executes (`Sched.runM`,
+  FluteModel/SchedM.lean: every read uses the table of the model's own `tickOf`) and state the bound for the model's
+  own tick, without a hypothesis on it.  Every configuration, FDT table and operation history with ARBITRARY instants
+  (monotonicity of the clock is not needed for these statements).
 -/
 namespace Flute.Props.C14
 open Flute.Sched Flute.Spec.Timing Flute.Spec.Lifecycle
@@ -138,6 +142,91 @@ theorem pacing_lower_bound_floor (cfg : Cfg) (tbl : List Nat) (ops : List Op) (t
     idx * target ≤ (now - (TM.run toi pre).tStart + idx) * n :=
   pacing_lower_bound_target cfg tbl ops toi post pre now prio idx b hs (target / n) target n ht
     (tick_floor_round target n hn).2
+
+/-- the pacing tick in the monitor's state is the tick of the latest `StartTransfer` event of the object -/
+theorem tm_tick_from_start (toi : Nat) : ∀ (l : List Ev) (tk : Nat), (TM.run toi l).tick = some tk →
+    ∃ st, Ev.start (TM.run toi l).tStart toi st (some tk) ∈ l := by
+  intro l
+  induction l with
+  | nil => intro tk h; simp [TM.run] at h
+  | cons e l ih =>
+    intro tk h
+    have keep : (TM.run toi (e :: l)).tick = (TM.run toi l).tick → (TM.run toi (e :: l)).tStart = (TM.run toi l).tStart →
+        ∃ st, Ev.start (TM.run toi (e :: l)).tStart toi st (some tk) ∈ e :: l := by
+      intro h1 h2
+      rw [h1] at h
+      obtain ⟨st, hm⟩ := ih tk h
+      exact ⟨st, by rw [h2]; exact List.mem_cons_of_mem _ hm⟩
+    cases e with
+    | start n t st tick =>
+      by_cases ht : t = toi
+      · subst ht
+        have h1 : (TM.run t (Ev.start n t st tick :: l)).tick = tick := by simp [TM.run, TM.step]
+        have h2 : (TM.run t (Ev.start n t st tick :: l)).tStart = n := by simp [TM.run, TM.step]
+        rw [h1] at h
+        exact ⟨st, by rw [h2, h]; exact List.mem_cons_self ..⟩
+      · exact keep (by simp [TM.run, TM.step, ht]) (by simp [TM.run, TM.step, ht])
+    | opAdd t a ok => exact keep (by simp only [TM.run, TM.step]; split <;> rfl) (by simp only [TM.run, TM.step]; split <;> rfl)
+    | opTrigger t ts ap => exact keep (by simp only [TM.run, TM.step]; split <;> rfl) (by simp only [TM.run, TM.step]; split <;> rfl)
+    | pkt a b t c d => exact keep (by simp only [TM.run, TM.step]; split <;> rfl) (by simp only [TM.run, TM.step]; split <;> rfl)
+    | stop n t => exact keep (by simp only [TM.run, TM.step]; split <;> rfl) (by simp only [TM.run, TM.step]; split <;> rfl)
+    | opRemove t ok => exact keep rfl rfl
+    | opPublish n => exact keep rfl rfl
+    | opRead n => exact keep rfl rfl
+    | pub n k fs => exact keep rfl rfl
+    | fdtStart n k => exact keep rfl rfl
+    | fdtStop n k => exact keep rfl rfl
+    | fdt n k i j => exact keep rfl rfl
+    | idle n => exact keep rfl rfl
+
+/-- **Pacing lower bound for the MODEL'S OWN tick** (no hypothesis on the tick).  In every history whose reads use the
+    tick the model computes itself (`Sched.runM`, FluteModel/SchedM.lean - what the driver executes and the real sender is
+    compared with): when packet `idx` of a paced transfer of `toi` leaves at `now`, the transfer's `StartTransfer`
+    (at `tStart`) was appended by a `read(tStart)` of the history, the object `f` was in the sender at that call, the
+    tick is `tickOf f tStart` (`Lemmas/SchedTick.lean: start_tick_is_tickOf`), the packet is not earlier than
+    `tStart + idx * tickOf f tStart`, and in terms of the TARGET - a duration `d`, or the time `T - tStart` left to a
+    deadline `T` - `idx * target ≤ (now - tStart + idx) * n`: never before `tStart + idx * target / n` minus `idx` ns of
+    integer rounding (`n = f.nSym > 0` packets). -/
+theorem pacing_lower_bound_model (cfg : Cfg) (tbl : List Nat) (ops : List Op) (toi : Nat)
+    (post pre : List Ev) (now prio idx : Nat) (b : Bool)
+    (hs : (runM (init cfg tbl) ops).log = post ++ Ev.pkt now prio toi idx b :: pre) (tk : Nat)
+    (ht : (TM.run toi pre).tick = some tk) :
+    ∃ opsPre x opsPost f, ops = opsPre ++ Op.read (TM.run toi pre).tStart x :: opsPost ∧
+      getF (runM (init cfg tbl) opsPre).objs toi = some f ∧ 0 < f.nSym ∧
+      tk = tickOf f (TM.run toi pre).tStart ∧ (TM.run toi pre).tStart + idx * tk ≤ now ∧
+      (∀ d, f.target = some (.dur d) → idx * d ≤ (now - (TM.run toi pre).tStart + idx) * f.nSym) ∧
+      (∀ T, f.target = some (.time T) →
+        idx * (T - (TM.run toi pre).tStart) ≤ (now - (TM.run toi pre).tStart + idx) * f.nSym) := by
+  have hrun := runM_eq_run ops (init cfg tbl)
+  have hs' : trace cfg tbl (retick (init cfg tbl) ops) = post ++ Ev.pkt now prio toi idx b :: pre := by
+    unfold trace; rw [← hrun]; exact hs
+  have hlb := pacing_lower_bound cfg tbl _ toi post pre now prio idx b hs' tk ht
+  obtain ⟨st, hm⟩ := tm_tick_from_start toi pre tk ht
+  have hmem : Ev.start (TM.run toi pre).tStart toi st (some tk) ∈ (runM (init cfg tbl) ops).log := by
+    rw [hs]; exact List.mem_append_right _ (List.mem_cons_of_mem _ hm)
+  rcases start_tick_is_tickOf ops (init cfg tbl) hmem with h0 | ⟨opsPre, x, opsPost, f, e1, e2, e3⟩
+  · simp [init] at h0
+  · have hw : wantsTick f = true := by
+      cases hw : wantsTick f with
+      | true => rfl
+      | false => unfold startTick at e3; rw [hw] at e3; simp at e3
+    have htk : tk = tickOf f (TM.run toi pre).tStart := by
+      unfold startTick at e3; rw [hw] at e3; simpa using e3
+    have hn : 0 < f.nSym := by
+      unfold wantsTick at hw
+      split at hw
+      · simpa [Nat.pos_iff_ne_zero] using hw
+      · simpa [Nat.pos_iff_ne_zero] using hw
+      · cases hw
+    refine ⟨opsPre, x, opsPost, f, e1, e2, hn, htk, hlb, ?_, ?_⟩
+    · intro d hd
+      have : tk = d / f.nSym := by rw [htk]; unfold tickOf; rw [hd]
+      exact pacing_lower_bound_target cfg tbl _ toi post pre now prio idx b hs' tk d f.nSym ht
+        (by rw [this]; exact (tick_floor_round d f.nSym hn).2)
+    · intro T hT
+      have : tk = (T - (TM.run toi pre).tStart) / f.nSym := by rw [htk]; unfold tickOf; rw [hT]
+      exact pacing_lower_bound_target cfg tbl _ toi post pre now prio idx b hs' tk _ f.nSym ht
+        (by rw [this]; exact (tick_floor_round _ f.nSym hn).2)
 
 /-- ... and the tick of `Sched.tickOf` is that quotient -/
 theorem tickOf_is_floor (f : FileDesc) (now d : Nat) (h : f.target = some (.dur d)) : tickOf f now = d / f.nSym := by
@@ -292,6 +381,11 @@ def histP : List Op :=
    .read 27 [(1, 10)], .read 40 [(1, 10)], .read 140 [(1, 10)], .read 141 [(1, 10)]]
 
 example : Ev.start 7 1 (some 7) (some 10) ∈ trace cfg1 [1] histP := by decide
+/-- non-vacuity of `pacing_lower_bound_model`: the same history run with the model's own ticks (`runM`: the tables
+    written in the operations are ignored) starts the transfer with tick `30 / 3 = 10` and sends packet 2 at 27 -/
+example : Ev.start 7 1 (some 7) (some 10) ∈ (runM (init cfg1 [1]) (histP.map fun op => match op with | .read n _ => .read n [] | o => o)).log ∧
+    Ev.pkt 27 0 1 2 false ∈ (runM (init cfg1 [1]) (histP.map fun op => match op with | .read n _ => .read n [] | o => o)).log := by
+  decide
 example : Ev.pkt 17 0 1 1 false ∈ trace cfg1 [1] histP ∧ Ev.pkt 27 0 1 2 false ∈ trace cfg1 [1] histP := by decide
 example : Ev.start 141 1 (some 7) (some 10) ∈ trace cfg1 [1] histP ∧ Ev.idle 140 ∈ trace cfg1 [1] histP ∧ Ev.stop 40 1 ∈ trace cfg1 [1] histP := by decide
 
